@@ -94,8 +94,8 @@ func (i *interpreter) cutAtPhis(fr *frame, phis []ssa.Instruction) {
 func registerCutStubs(sh *Shared) {
 	reg := func(name string, f externalFn) { sh.ext[name] = f }
 	reg(mainPath+".cutLoop", func(fr *frame, args []value) value {
-		if fr.i.ex.concrete != nil {
-			return nil // concrete replays run the loop from its real initial state
+		if fr.i.ex.concrete != nil && !concreteHasLoopVars(fr.i.ex.concrete) {
+			return nil // concrete replays without loop variables run the loop from its real initial state
 		}
 		fr.i.cut = &cutState{fn: args[0].(string), pre: args[1], post: args[2]}
 		return nil
@@ -141,6 +141,19 @@ func registerCutStubs(sh *Shared) {
 		k := byName[names[0]]
 		return iface{t: k.Type(), v: c.frame.env[k]}
 	})
-	reg(mainPath+".cutActive", func(fr *frame, args []value) value { return fr.i.ex.concrete == nil })
+	reg(mainPath+".cutActive", func(fr *frame, args []value) value {
+		return fr.i.ex.concrete == nil || concreteHasLoopVars(fr.i.ex.concrete)
+	})
 	reg(mainPath+".inCut", func(fr *frame, args []value) value { return fr.i.cut != nil && fr.i.cut.entered })
+}
+
+// concreteHasLoopVars: a replay vector that fixes the loop-carried variables of a cut
+// ("loop.<var>") is replayed through the cut as well (the step from exactly that loop state).
+func concreteHasLoopVars(m map[string]uint64) bool {
+	for k := range m {
+		if strings.HasPrefix(k, "loop.") {
+			return true
+		}
+	}
+	return false
 }
